@@ -1,8 +1,9 @@
 (** C12 — resampling copies particles faithfully, preserves the estimate, and
-    systematic resampling gives floor/ceil counts for every offset. *)
+    systematic resampling gives floor/ceil counts for every offset and is unbiased
+    (mean copies N w_i over uniform offset grids of every resolution c * sum(w)). *)
 From Coq Require Import ZArith List Lia Bool QArith.
 Import ListNotations.
-From GV Require Import Model.Resample Lemmas.ResampleLemmas Lemmas.SysResample.
+From GV Require Import Model.Resample Lemmas.ResampleLemmas Lemmas.SysResample Lemmas.SysUnbiased.
 Open Scope Z_scope.
 
 (** Systematic resampling: for every weight vector with non-negative entries
@@ -46,6 +47,28 @@ Theorem C12_marginal_unchanged :
     idx <> [] -> weights c <> [] -> (marginal (resample d c idx) == marginal c)%Q.
 Proof. intros. apply resample_marginal; assumption. Qed.
 Print Assumptions C12_marginal_unchanged.
+
+(** Unbiasedness: over the uniform grid of B = c * sum(w) offsets u_k = (2k+1)/(2B) the copies
+    of particle i sum to c * N * w_i, i.e. their mean is N * w_i / sum(w) - for every weight
+    vector, every N >= 1 and every resolution c >= 1 (the continuous expectation over
+    u ~ Uniform(0,1) is the limit c -> infinity of these exact Riemann averages). *)
+Theorem C12_systematic_unbiased_on_grid :
+  forall (ws : list Z) (N c : nat),
+    Forall (fun w => 0 <= w) ws -> 0 < sumz ws -> (0 < N)%nat -> (0 < c)%nat ->
+    forall i, (i < length ws)%nat ->
+      let B := (c * Z.to_nat (sumz ws))%nat in
+      zsum (copies_at ws N c i) B = Z.of_nat c * Z.of_nat N * nth i ws 0
+      /\ sumz ws * zsum (copies_at ws N c i) B = Z.of_nat B * (Z.of_nat N * nth i ws 0).
+Proof.
+  intros ws N c Hws HT HN Hc i Hi. split.
+  - apply systematic_unbiased_on_grid; assumption.
+  - apply systematic_mean_copies; assumption.
+Qed.
+Print Assumptions C12_systematic_unbiased_on_grid.
+
+Example C12_unbiased_nonvacuous :
+  zsum (copies_at [1; 2; 0; 5] 3 2 1%nat) 16 = 2 * 3 * 2.
+Proof. vm_compute. reflexivity. Qed.
 
 Example C12_nonvacuous :
   sys_indices [1; 2; 0; 5] 8 3 10 = [0; 1; 1; 3; 3; 3; 3; 3]%nat
